@@ -73,7 +73,7 @@ func Check(v any) error {
 	for i := 0; i < value.NumField(); i++ {
 		sf := value.Type().Field(i)
 
-		if sf.Tag.Get("api") == "attr" {
+		if sf.Name != "ID" && sf.Tag.Get("api") == "attr" {
 			isValid := false
 
 			switch sf.Type.String() {
@@ -107,7 +107,7 @@ func Check(v any) error {
 	for i := 0; i < value.NumField(); i++ {
 		sf := value.Type().Field(i)
 
-		if s := strings.Split(sf.Tag.Get("api"), ","); s[0] == "rel" {
+		if s := strings.Split(sf.Tag.Get("api"), ","); sf.Name != "ID" && s[0] == "rel" {
 			if len(s) < 2 || len(s) > 3 || s[1] == "" {
 				return fmt.Errorf(
 					"jsonapi: api tag of relationship %q of struct %q is invalid",
@@ -161,7 +161,7 @@ func BuildType(v any) (Type, error) {
 		jsonTag := fs.Tag.Get("json")
 		apiTag := fs.Tag.Get("api")
 
-		if apiTag == "attr" {
+		if fs.Name != "ID" && apiTag == "attr" {
 			fieldType, null := GetAttrType(fs.Type.String())
 			typ.Attrs[jsonTag] = Attr{
 				Name:     jsonTag,
@@ -189,7 +189,7 @@ func BuildType(v any) (Type, error) {
 			toOne = false
 		}
 
-		if relTag[0] == "rel" {
+		if fs.Name != "ID" && relTag[0] == "rel" {
 			typ.Rels[jsonTag] = Rel{
 				FromName: jsonTag,
 				ToOne:    toOne,
